@@ -268,7 +268,7 @@ H("k02f_block_structure", "process", ["C02", "C08", "C05"], tier="experimental",
              "DeflateWriter::encode_block", "DeflateWriter::flush_with_padding"],
   bounds="every list of <= 3 blocks, each stored (<= 2 bytes, any 5 padding bits) or fixed-Huffman with <= 2 literals; max_token_count any u16 >= 1; any final padding byte; no dictionary (HashAlgorithm::None)",
   outside="dynamic blocks (need the Huffman length calculator over 316 symbols), reference tokens (k02e)", assumptions=FIXED_ASSUME[:1] + ["recording codec Rec"])
-for nb, tier in ((1, "quick"), (2, "quick"), (3, "quick")):
+for nb, tier in ((1, "quick"), (2, "quick"), (3, "quick"), (4, "thorough")):
     H("k02p_block_sequence_%d" % nb, "process", ["C02", "C08", "C05"], tier=tier, unwind=6, unwindset={"block_sequence": 6, "predict_blocks": nb + 2, "recreate_blocks": nb + 2}, timeout=1800, mem_gb=16,
       claim="block sequence / EOF signalling mirror: the REAL encode_mispredictions / predict_blocks / decode_mispredictions / recreate_blocks, over contract stubs of the per-block mirrors, hand the writer exactly the original block list (order, types, each dynamic block with its own Huffman header, final flag on the last block only), restore the trailing padding and consume the corrections exactly; predict_block gets last_block only for the last block",
       functions=["process::encode_mispredictions", "process::predict_blocks", "process::decode_mispredictions", "process::recreate_blocks", "TokenPredictor::new", "TokenPredictor::input_eof"],
@@ -405,6 +405,9 @@ for sfx, tbl in (("257_1", "HLIT 257, HDIST 1"), ("286_30", "HLIT 286, HDIST 30"
       functions=["HuffmanOriginalEncoding::read", "HuffmanOriginalEncoding::get_tree_code_adjustment"],
       bounds=tbl + " (concrete per instance); every HCLEN, every code-length code, every sequence of <= 6 run-length symbols (incl. invalid symbol 19) with every extra-bits value; tables needing more than 6 items are cut by the read budget",
       outside="tables of more than 6 run-length items (k07c in the thorough tier: 16 reads over a concrete code); other HLIT / HDIST values", assumptions=["calculate_huffman_code_tree replaced by its contract (Err or a tree; discharged by k03d / k07d)", "decode_symbol replaced by its contract (Err, or any u16 <= 19 after consuming one bit)", "scripted + symbolic recording bit source (ReadBits seam) with a read budget of 34 calls"])
+H("k07e_dyn_header_read_post_more", "huffman_encoding", ["C05", "C07", "C03"], tier="thorough", unwind=8, unwindset={"dyn_header_post": 22, "HuffmanOriginalEncoding.*read": 21}, timeout=3000, mem_gb=24,
+  claim="as k07e_dyn_header_read_post_* for tables of up to 10 run-length items", functions=["HuffmanOriginalEncoding::read"], bounds="HLIT 260, HDIST 8; every HCLEN, code-length code and sequence of <= 10 run-length symbols with every extra-bits value",
+  assumptions=["calculate_huffman_code_tree / decode_symbol replaced by their contracts", "scripted + symbolic recording bit source (ReadBits seam)"])
 H("k03h_dyn_lengths_expand", "huffman_encoding", ["C03", "C07", "C04"], tier="quick", unwind=8, unwindset={"k03h": 12, "rfc_expand": 140, "dyn_lengths_shape": 20, "get_literal_distance_lengths": 140, "to_vec|ConvertVec|clone_from_slice|spec_extend": 260}, timeout=1500, mem_gb=16,
   claim="the code lengths both the reader and the writer of a dynamic block build their Huffman codes from (HuffmanOriginalEncoding::get_literal_distance_lengths) equal the RFC 1951 3.2.7 expansion of the run-length items split at HLIT: no symbol added, dropped or moved (a repeat may cross the literal/distance boundary)",
   functions=["HuffmanOriginalEncoding::get_literal_distance_lengths"],
